@@ -97,8 +97,39 @@ class HarnessObj:
     __hash__ = None
 
 
+import collections as _c
+import datetime as _dt
+import decimal as _dec
+import enum as _enum
+import fractions as _fr
+
+
+class Colour(_enum.Enum):
+    RED = 1
+    GREEN = "g"
+
+
+Point = _c.namedtuple("Point", "x y")
+
+
+def protocol_sensitive(r):
+    """picklable objects whose round trip depends on the pickle protocol / reduce details: classes and instances of exceptions that exist
+    only in Python 3, standard-library value types, enum members, named tuples, type objects and builtins"""
+    return r.choice([
+        FileNotFoundError, ModuleNotFoundError, ConnectionResetError, TimeoutError, PermissionError, RecursionError, StopAsyncIteration,
+        ModuleNotFoundError("no module named x"), FileNotFoundError(), ConnectionResetError("reset"), TimeoutError(), BlockingIOError(11, "again"),
+        NotADirectoryError("nd"), ChildProcessError(), KeyError("k"), ValueError("v", 2),
+        bytearray(b"\x00\x01ba"), _dt.datetime(2020, 1, 2, 3, 4, 5, 6), _dt.datetime(2021, 11, 7, 1, 30, fold=1), _dt.date(2000, 2, 29), _dt.timedelta(1, 2, 3),
+        _dt.timezone(_dt.timedelta(hours=5, minutes=30)), _dec.Decimal("1.10"), _fr.Fraction(3, 7), Colour.RED, Colour.GREEN, Point(1, "y"),
+        _c.OrderedDict([("b", 1), ("a", 2)]), _c.deque([1, 2, 3], maxlen=5), _c.Counter("abca"), int, list, len, Ellipsis, NotImplemented,
+        slice(1, None, 2), memoryview, 2 ** 70, -(2 ** 70), float("inf"), b"", "", (), frozenset(),
+    ])
+
+
 def rand_pickle(r, depth=0):
     c = r.random()
+    if c < 0.12:
+        return protocol_sensitive(r)
     if depth > 4 or c < 0.35:
         return r.choice([None, 1, 2.5, "x", b"\x00\xff", (1, 2), frozenset({1, 2}), 10**50, complex(1, -2), rand_text(r)[:30], range(3), True])
     if c < 0.5:
@@ -143,6 +174,14 @@ def deep_eq(a, b, seen=None):
     if isinstance(a, HarnessObj):
         seen.add(key)
         return deep_eq(a.a, b.a, seen) and deep_eq(a.b, b.b, seen)
+    if isinstance(a, BaseException):
+        return a.args == b.args and getattr(a, "errno", None) == getattr(b, "errno", None)  # exceptions compare by identity; type is checked above
+    if isinstance(a, _c.deque):
+        return list(a) == list(b) and a.maxlen == b.maxlen
+    if isinstance(a, _dt.datetime):
+        return a == b and a.fold == b.fold and a.tzinfo == b.tzinfo
+    if isinstance(a, type) or callable(a) and not isinstance(a, HarnessObj):
+        return a is b
     return a == b
 
 
@@ -218,6 +257,27 @@ def run_case(desc):
         mt0 = store.get_modified_time()
         if mt0 is not None:
             bad = f"get_modified_time() is {mt0!r} on a never-written store"
+        if bad is None and mount == "direct" and desc["seed"] % 3 == 0:
+            # "None exactly when nothing is stored": also when the path cannot exist - a parent component that is a regular file, a name
+            # longer than the file system allows, a symlink loop, a dangling symlink, a missing directory
+            blocker = os.path.join(tmp, "plainfile")
+            with open(blocker, "w") as f:
+                f.write("x")
+            os.symlink(os.path.join(tmp, "loop_b"), os.path.join(tmp, "loop_a"))
+            os.symlink(os.path.join(tmp, "loop_a"), os.path.join(tmp, "loop_b"))
+            os.symlink(os.path.join(tmp, "nowhere"), os.path.join(tmp, "dangling"))
+            for label, wp in (("parent component is a regular file", os.path.join(blocker, "v.dat")), ("name longer than NAME_MAX", os.path.join(tmp, "n" * 300)),
+                              ("symlink loop", os.path.join(tmp, "loop_a")), ("symlink loop as parent", os.path.join(tmp, "loop_a", "v.dat")),
+                              ("dangling symlink", os.path.join(tmp, "dangling")), ("missing directory", os.path.join(tmp, "no", "such", "dir", "v.dat"))):
+                wpath = wp if pathkind == "str" else pathlib.Path(wp)
+                try:
+                    got_mt = make(wpath).get_modified_time()
+                except BaseException as e:
+                    bad = f"get_modified_time() raised {e!r} for a path at which nothing is stored ({label}); it must be None"
+                    break
+                if got_mt is not None:
+                    bad = f"get_modified_time() is {got_mt!r} for a path at which nothing is stored ({label})"
+                    break
         nwrites = r.choice([1, 1, 2, 3])
         prev = None
         for w in range(nwrites):
@@ -354,7 +414,7 @@ def run_case(desc):
         dig = hashlib.sha1(pickle.dumps(value) if kind != "text" else value.encode("utf-8", "surrogatepass")).hexdigest()[:12]
     except Exception:
         dig = str(desc["seed"])
-    res = {"status": "ok", "counters": {"round_trips": 1, "mtime_sequences_across_second_boundary": int(mount == "direct"), "epoch_mtime_checks": int(mount == "direct"),
+    res = {"status": "ok", "counters": {"round_trips": 1, "mtime_sequences_across_second_boundary": int(mount == "direct"), "epoch_mtime_checks": int(mount == "direct"), "unreachable_path_checks": int(mount == "direct" and desc["seed"] % 3 == 0),
                                         "dst_fallback_mtime_sequences": int(mount == "direct" and desc["seed"] % 4 == 0), "concurrent_mounted_read_groups": int(mount != "direct"), f"kind_{kind}": 1, f"mount_{mount}": 1}, "sets": {"features": feats},
            "nontrivial": nontrivial, "sig": f"{kind}|{mount}|{pathkind}|{enc}|{dig}"}
     if desc["seed"] % 1500 == 0 or bad:
